@@ -1,6 +1,6 @@
 #!/usr/bin/env python3
 """Runs the must-fail corpus and the benign refactors against the verifier (scratch copies outside /repo and /verif)."""
-import sys, os, re, shutil, subprocess, tempfile, json, time, concurrent.futures
+import sys, os, re, shutil, subprocess, tempfile, json, time, glob, concurrent.futures
 sys.path.insert(0, '/verif/selftest')
 from cases import MUTANTS, BENIGN
 ENV = dict(os.environ, GOFLAGS='-mod=mod', GOPROXY='off', GOSUMDB='off', GOTOOLCHAIN='local')
@@ -60,14 +60,37 @@ def run_case(case, benign=False):
         return cid, ('ok' if ok else 'MISSED' if not benign else 'FALSE-ALARM'), f'{tests} ' + '; '.join(f'{p}:{"+" if o else "-"} {x}' for p, o, x in res)
     finally:
         shutil.rmtree(d, ignore_errors=True)
+# seeded changes from sub-agents: /verif/seeded/<id>/patch.diff must fail the check of its property
+def run_seed(sdir):
+    meta = json.load(open(os.path.join(sdir, 'meta.json')))
+    prop = meta['property']; cid = 'seed-' + os.path.basename(sdir)
+    d = scratch()
+    try:
+        r = subprocess.run(['git', 'apply', '--unsafe-paths', '--directory', d, os.path.join(sdir, 'patch.diff')], cwd='/', capture_output=True, text=True)
+        if r.returncode != 0: return cid, 'BROKEN-CASE', 'patch does not apply: ' + r.stderr[:200]
+        b = subprocess.run(['go', 'build', './...'], cwd=d, capture_output=True, text=True, env=ENV)
+        if b.returncode != 0: return cid, 'BROKEN-CASE', 'does not compile'
+        code, out = check(d, prop)
+        failed = re.findall(r'^FAILED (\S.*?) \[', out, re.M)
+        return cid, ('ok' if code == 1 else 'MISSED'), f'{prop}: {failed[:3]}'
+    finally:
+        shutil.rmtree(d, ignore_errors=True)
 jobs = [(c, False) for c in MUTANTS if not only or any(o in c[0] for o in only)] + [(c, True) for c in BENIGN if not only or any(o in c[0] for o in only)]
 if prop_filter:
     jobs = [(c, b) for (c, b) in jobs if (not b and c[1] == prop_filter)]
+seeds = sorted(glob.glob('/verif/seeded/*/')) if (not only or 'seeds' in only) else []
+if prop_filter:
+    seeds = [x for x in seeds if json.load(open(os.path.join(x, 'meta.json'))).get('property') == prop_filter]
+if only == ['seeds']:
+    jobs = []
 t0 = time.time()
 bad = 0
 with concurrent.futures.ThreadPoolExecutor(max_workers=4) as ex:
     for cid, status, detail in ex.map(lambda j: run_case(*j), jobs):
         print(f'{status:12} {cid:38} {detail[:260]}')
         if status != 'ok': bad += 1
-print(f'{len(jobs)} cases, {bad} not ok, {time.time()-t0:.0f}s')
+    for cid, status, detail in ex.map(lambda x: run_seed(x.rstrip('/')), seeds):
+        print(f'{status:12} {cid:38} {detail[:260]}')
+        if status != 'ok': bad += 1
+print(f'{len(jobs)+len(seeds)} cases, {bad} not ok, {time.time()-t0:.0f}s')
 sys.exit(1 if bad else 0)
